@@ -945,6 +945,23 @@ M_ProvN(msPost, step) ==
 M_Xml(msPost, step) ==
   Cl("M_Xml", IsRT(step, "xml") /\ step.stage \in {"read", "done"} /\ WfXML(step.ast),
      SameAX(AbsX(step.ast), EncAX(msPost, step.op.h, step.op.opts \in {"force", "alt"}, AbsX(step.ast))))
+(* the document the library's PROV-XML reader returned is the one the transcription of the reader *)
+(* (ProvXmlW.DecX) produces from what the writer model emits: same content; and, where every      *)
+(* namespace has one prefix in scope (else the prefix lxml writes an element with is its choice),  *)
+(* the same registered and default namespaces in the document and in every bundle                  *)
+M_XmlBack(msPost, step) ==
+  Cl("M_XmlBack", IsRT(step, "xml") /\ step.stage \in {"read", "done"} /\ WfXML(step.ast),
+     LET ax == EncAX(msPost, step.op.h, step.op.opts \in {"force", "alt"}, AbsX(step.ast))
+         r  == DecX(ax)
+         clear == ~XAmbiguous(ax.ns) /\ \A i \in 1..Len(ax.bundles) : ~XAmbiguous(ax.bundles[i].ns)
+     IN IF step.exc # "none" THEN r.exc # "none"
+        ELSE /\ r.exc = "none"
+             /\ LET rd == RdOf(r.st, RH) IN
+                /\ ReadBagEq(rd, step.back)
+                /\ clear => /\ NsSame(step.back.ns, rd.ns)
+                            /\ \A i \in 1..Len(step.back.bundles) : \E j \in 1..Len(rd.bundles) :
+                                  rd.bundles[j].id = step.back.bundles[i].id
+                                  /\ NsSame(step.back.bundles[i].ns, rd.bundles[j].ns))
 M_Eq(r, step) == Cl("M_Eq", step.op.op = "CompareAll" /\ step.exc = "none", r.res = step.res.eq)
 
 =============================================================================
